@@ -260,7 +260,9 @@ def resolve(model: RefDir, op):
             items = []
             for i in range(k):
                 tn = _pick(cands, r[1 + 2 * i])
-                e = [1, 1, 1, -1, -1, 2, 2, -2, 3, -3][r[2 + 2 * i] % 10]
+                # (10, -11: more than a superscript digit can show)
+                e = [1, 1, 1, -1, -1, 2, 2, -2, 3, -3, 1, 2, -1, 10,
+                     -11][r[2 + 2 * i] % 15]
                 items.append([tn, e])
         dim = {}
         for tn, e in merge_items(items):
